@@ -28,12 +28,35 @@ CORPUS_ALL = {
 }
 recs = {}
 for f_ in soaks:
-    for ln in open(f_):
+    c07only = f_.startswith("c07only:")
+    for ln in open(f_.split(":", 1)[1] if c07only else f_):
         r = json.loads(ln)
+        if c07only:
+            # workloads of the excluded classes are explored by C07 only
+            r["cls"] = [c for c in r["cls"] if c.startswith("C07:")]
+            r["status"] = "c07only"
+            r.pop("text", None)
         recs[(r["wid"], r["sched"])] = r
 pts = collections.defaultdict(set)   # (prop, cls) -> {(wid, sid)}
 outs = collections.defaultdict(dict)  # wid -> outcome -> [sids]
+def current_classes(r):
+    """Classes of a soak record under the *current* strict grammar (the
+    soak keeps the emitted text of every failing record)."""
+    cls = [c for c in r["cls"] if not c.startswith("C05:") or c in (
+        "C05:name-missing", "C05:name-extra", "C05:placeholder-leak")]
+    if r.get("text"):
+        try:
+            puml_sem.parse_strict(r["text"])
+        except puml_sem.StrictError as e:
+            cls.append("C05:" + e.cls)
+    else:
+        cls += [c for c in r["cls"] if c.startswith("C05:")
+                and c not in cls]
+    return cls
+
+
 for (wid, sid), r in recs.items():
+    r["cls"] = current_classes(r)
     for c in r["cls"]:
         prop, cls = c.split(":", 1)
         pts[(prop, cls)].add((wid, sid))
